@@ -22,7 +22,7 @@ ROOT = os.path.dirname(os.path.abspath(__file__))
 HARNESS = os.path.join(ROOT, "harness")
 # the repository under test; VERIF_REPO lets a background exploration run use a snapshot
 # (the registered checks always run against /repo itself)
-REPO = os.environ.get("VERIF_REPO", "/repo")
+REPO = os.environ.get("VERIF_REPO") or "/repo"
 # VERIF_EVIDENCE_DIR: used by the seeded-change tooling so that runs against a deliberately broken
 # tree never overwrite the evidence of /repo itself
 EVID = os.environ.get("VERIF_EVIDENCE_DIR") or os.path.join(ROOT, "evidence")
